@@ -1472,6 +1472,13 @@ func c10Sources(tier string, fn func(kind, src string)) {
 		dops = append(dops, "以"+v+"（写入：“D”、4）", "以"+v+"（移除：“A”）", v+"#“E” = 5")
 		lops = append(lops, "以"+v+"（后增：4）", "以"+v+"（左移）", "以"+v+"（新增：1、9）")
 	}
+	// the value a method returns, used without being bound (it may share storage with its receiver)
+	for _, v := range vars {
+		for _, u := range vars {
+			lops = append(lops, "以"+v+"（合并："+u+"）、（左移）", "以"+v+"（合并："+u+"）、（右移）")
+		}
+	}
+	lops = append(lops, "以甲（合并：乙）得到丁\n以丁（左移）", "（显示：以以甲（合并：【7】）（右移））")
 	copies := []string{"乙 = 甲", "丙 = 甲", "丙 = 乙", "甲 = 丙"}
 	fams := []family{
 		{"令甲 = 【“A” = 1，“B” = 2，“C” = 3】\n令乙 = 甲\n令丙 = 甲\n", append(append([]string{}, copies...), dops...)},
@@ -1493,6 +1500,31 @@ func c10Sources(tier string, fn func(kind, src string)) {
 				}
 				b.WriteString("（显示：甲、乙、丙）\n输出【甲，乙，丙，“{}” % 【甲】】")
 				fn("history", b.String())
+			}
+		}
+	}
+	// (c) a collection changed while it is being walked: at pass i the body applies one
+	// operation to the collection, every pass uses the loop variables
+	uses := []string{"（显示：K、V）", "令T = “{}” % 【V】", "以总（后增：V）", "（显示：V之文本）", "以总（后增：K）"}
+	dictOps := []string{"以甲（移除：“A”）", "以甲（移除：“B”）", "以甲（移除：“C”）", "以甲（写入：“D”、4）", "以甲（写入：“A”、9）", "甲 = 【“Z” = 0】"}
+	listOps := []string{"以甲（左移）", "以甲（右移）", "以甲（后增：4）", "以甲（前增：0）", "甲#1 = 9", "甲 = 【7】"}
+	for fi, pre := range []string{"令甲 = 【“A” = 1，“B” = 2，“C” = 3】\n", "令甲 = 【1，2，3】\n"} {
+		ops := dictOps
+		if fi == 1 {
+			ops = listOps
+		}
+		for pass := 1; pass <= 3; pass++ {
+			for _, op := range ops {
+				for _, op2 := range append([]string{""}, ops...) {
+					for _, use := range uses {
+						body := "    I = I + 1\n    如果I == " + fmt.Sprint(pass) + "：\n        " + op + "\n"
+						if op2 != "" {
+							body += "        " + op2 + "\n"
+						}
+						body += "    " + use + "\n"
+						fn("walk", pre+"令总 = 【】\n令I = 0\n以K、V遍历甲：\n"+body+"（显示：甲、总）\n输出【甲，总，“{}” % 【总】】")
+					}
+				}
 			}
 		}
 	}
@@ -1640,7 +1672,7 @@ func init() {
 			"guards seam: Validate{Exact,Least,All}Params / AssertElement / AssertPropertyElement over type-string patterns x value tuples. " +
 			"program seam: one-call programs (method, property read / write, function call, 新建, 抛出, index read / write, every binary operator spelling, 如果 / 每当 / 遍历) with every argument slot over the full pool, arity <= 2 (method calls in quick: two arguments only on receivers whose type owns the method, one argument on every receiver; thorough: every receiver, and arity 3 over the sub-pool), values through 输入, result bound to a name and returned (and returned directly for arity <= 1). " +
 			"varinput seam: every text 甲 = <rhs> with <= 3 units over 14 units joined by 5 separators, two assignments joined by ； / newline, 8 target forms. " +
-			"source seam: every callable (function, method, 何为 getter, constructor) whose body is 1..2 statements over 8 forms that may yield no value (nested definitions, declarations, loops and branches that never run, 输出, 显示) x 12 ways of consuming the call's result; every history of <= 3 (4 thorough) operations (re-copy, 写入 / 移除 / index write, 后增 / 左移 / 新增) through three names holding copies of one 3-key dictionary or one 3-item list, then 显示, format and rendering of all three. " +
+			"source seam: every callable (function, method, 何为 getter, constructor) whose body is 1..2 statements over 8 forms that may yield no value (nested definitions, declarations, loops and branches that never run, 输出, 显示) x 12 ways of consuming the call's result; every history of <= 3 (4 thorough) operations (re-copy, 写入 / 移除 / index write, 后增 / 左移 / 新增) through three names holding copies of one 3-key dictionary or one 3-item list, then 显示, format and rendering of all three (list histories also change the unbound result of 合并); every walk (以K、V遍历) of a 3-key dictionary / 3-item list whose body, at pass 1..3, applies one or two of 6 operations to the collection being walked (remove each key, insert, overwrite, replace / shift, append, prepend, element write, replace) while every pass uses the loop variables in one of 5 ways. " +
 			"Enumeration is an odometer over table indexes, so cases are distinct; a case is non-trivial when the member's own code was reached (outcome is a value, or an error other than member-not-found / name-not-defined).",
 		Assumptions: []string{
 			"a Zn error of any kind is an acceptable outcome; only a Go panic, a nil Element on success (also inside a returned collection, or bound to a name that then reads as undefined), a hang or a dead worker are violations",
